@@ -310,7 +310,34 @@ func c13Gen(t *rapid.T) C13Case {
 		if chance(t, "companions", 40) {
 			for i, n := 0, intIn(t, "ncomp", 1, 5); i < n; i++ {
 				x := g
-				switch uniform(t, "compkind", 5) {
+				strip := func(h string, n int) string {
+					for ; n > 0; n-- {
+						if i := strings.IndexByte(h, '.'); i >= 0 && i+1 < len(h) && h[i+1:] != "." {
+							h = h[i+1:]
+						}
+					}
+					return h
+				}
+				switch uniform(t, "compkind", 9) {
+				case 5: // an ancestor domain, listed plainly
+					if g.kind == "domain" {
+						x.wild, x.host = false, strip(g.host, intIn(t, "up", 1, 2))
+						x.port = pick(t, "ancport", []string{g.port, "", "8443"})
+					}
+				case 6: // a wildcard over an ancestor domain (it covers the pattern's host only if scheme and port agree)
+					if g.kind == "domain" {
+						x.wild, x.host = true, strip(g.host, intIn(t, "up2", 1, 3))
+						x.port = pick(t, "wildport", []string{g.port, "", "*", "8443"})
+					}
+				case 7: // a descendant
+					if g.kind == "domain" && len(g.host) < 200 {
+						x.wild, x.host = false, pick(t, "sublabel", []string{"a", "b", "www", "x-1"})+"."+g.host
+						x.port = pick(t, "subport", []string{g.port, "", "8443", "*"})
+					}
+				case 8: // a sibling
+					if g.kind == "domain" && len(g.host) < 200 {
+						x.wild, x.host = false, pick(t, "siblabel", []string{"a", "b", "www"})+"."+strip(g.host, 1)
+					}
 				case 0, 1:
 					x.scheme = pick(t, "compscheme", []string{"http", "https", "ws", "wss", "capacitor", "app", "ftp", "a", "zz", "web+x", "httpss"})
 				case 2:
@@ -320,6 +347,9 @@ func c13Gen(t *rapid.T) C13Case {
 					x.port = pick(t, "compport2", []string{"", "*", "8080", g.port})
 				default:
 					x, _ = genValidPattern(t)
+				}
+				if base := strings.TrimSuffix(x.host, "."); x.wild && (len(base) > 251 || (len(base) == 251 && base != x.host)) {
+					x.wild = false // over the documented 251 bytes, or the undocumented corner *. + 251 bytes + trailing dot
 				}
 				if x.kind != "domain" && x.scheme == "https" {
 					x.scheme = "http" // https with an IP host is an undocumented grey zone
@@ -432,7 +462,7 @@ func c13Prop() Prop[C13Case] {
 	return Prop[C13Case]{ID: "C13", Gen: c13Gen, Check: c13Check,
 		Rule: "generator: patterns built from the documented grammar (scheme up to 64 bytes incl. near-'file' schemes; LDH domains up to exactly 253 bytes, 63-byte labels, Punycode, trailing dot; IPv4/IPv6 canonical literals via net/netip; *. before domains up to 251 bytes; " +
 			"ports absent/*/1..65535/other scheme's default; a forced 'every maximum at once' branch: 64-byte scheme + 253-byte domain + trailing dot + 5-digit port) - valid by construction - and 36 single-defect mutations of them - invalid by construction. " +
-			"Oracle: valid => accepted, wildcard-free patterns match themselves verbatim (GET and preflight), wildcard patterns match an instance, and (40% of valid cases) the same when the pattern is listed at any position among 1-5 companion patterns (the same host under other schemes and ports, or unrelated valid patterns): the list is accepted and every wildcard-free member matches itself; invalid => exactly one *UnacceptableOriginPatternError with Value == the string, Reason in {invalid, prohibited} (prohibited for null and file). " +
+			"Oracle: valid => accepted, wildcard-free patterns match themselves verbatim (GET and preflight), wildcard patterns match an instance, and (40% of valid cases) the same when the pattern is listed at any position among 1-5 companion patterns (the same host under other schemes and ports, ancestor domains plain or under a wildcard, descendants, siblings, or unrelated valid patterns): the list is accepted and every wildcard-free member matches itself; invalid => exactly one *UnacceptableOriginPatternError with Value == the string, Reason in {invalid, prohibited} (prohibited for null and file). " +
 			"non-trivial = valid pattern with a component at a documented maximum, an IP literal, Punycode or trailing dot, or any invalid pattern; distinct by pattern string.",
 		Assumptions: []string{"grey zones not generated: https with IP host, '_' in schemes or labels, hyphens in label positions 3-4, TLD starting with a digit, *. + 251-byte domain + trailing dot"}}
 }
